@@ -33,6 +33,10 @@ def expOf : Ty → Int
   | .sc _ e _ => e
   | _ => 0
 
+def radixOf : Ty → Nat
+  | .sc _ _ x => x
+  | _ => 2
+
 /-- a result over bare representations put back into the nest `shape` -/
 def rewrapSc (shape : Ty) (v : Num) : Num :=
   match v.1, shape with
@@ -93,7 +97,8 @@ def checkC12 (toks : List String) (res : String) : Option Verdict :=
     let ea : Int := match L with | .sc _ e _ => e | _ => 0
     let eb : Int := match R with | .sc _ e _ => e | _ => 0
     let m := showRes showNum (Layered.compound op (L, l) (R, r))
-    let p2 (e : Int) : Rat := if e ≥ 0 then (2 : Rat) ^ e.toNat else 1 / ((2 : Rat) ^ (-e).toNat)
+    let ρ : Nat := radixOf L
+    let p2 (e : Int) : Rat := if e ≥ 0 then (ρ : Rat) ^ e.toNat else 1 / ((ρ : Rat) ^ (-e).toNat)
     let va : Rat := (l : Rat) * p2 ea; let vb : Rat := (r : Rat) * p2 eb
     let exactV : Option Rat := match op with
       | .add => some (va + vb) | .sub => some (va - vb) | .mul => some (va * vb)
@@ -124,7 +129,7 @@ def checkC12 (toks : List String) (res : String) : Option Verdict :=
       | o => some (showRes showNum (o.map (rewrapSc (deeper L R))))
     let ea := expOf L; let eb := expOf R
     let T := usualArith a b
-    let pw (k : Int) : Int := (2 : Int) ^ k.toNat
+    let pw (k : Int) : Int := (radixOf L : Int) ^ k.toNat
     let conv := T.wrap l == l && T.wrap r == r
     let exact : Option (Int × Int) := match op with
       | .add | .sub =>
@@ -155,7 +160,7 @@ def checkC12 (toks : List String) (res : String) : Option Verdict :=
     let bare := Layered.cmp op (bareSc L, l) (bareSc R, r)
     let ea := expOf L; let eb := expOf R
     let c := min ea eb
-    let pw (k : Int) : Int := (2 : Int) ^ k.toNat
+    let pw (k : Int) : Int := (radixOf L : Int) ^ k.toNat
     let al := l * pw (ea - c); let ar := r * pw (eb - c)
     let PL := promote a; let PR := promote b
     let fits := PL.inRange al && PR.inRange ar
